@@ -1,1 +1,56 @@
-//! python exact-rational oracle bridge (filled in later)
+//! Bridge to the exact-rational Python oracle (/verif/lib/oracle.py).
+#![allow(dead_code)]
+
+use std::io::{BufRead, BufReader, Write};
+use std::process::{Command, Stdio};
+
+/// Send `requests` (one line each, no newlines inside) to oracle processes and return one answer
+/// per request, in order. Runs up to `crate::common::threads()` interpreters in parallel.
+pub fn ask(requests: &[String]) -> Result<Vec<String>, String> {
+    if requests.is_empty() {
+        return Ok(vec![]);
+    }
+    let script = format!("{}/lib/oracle.py", std::env::var("VERIF_DIR").unwrap_or_else(|_| "/verif".into()));
+    let n = crate::common::threads().min(requests.len().div_ceil(2000)).max(1);
+    let chunk = requests.len().div_ceil(n);
+    let chunks: Vec<&[String]> = requests.chunks(chunk).collect();
+    let results: Vec<Result<Vec<String>, String>> = std::thread::scope(|s| {
+        let handles: Vec<_> = chunks
+            .iter()
+            .map(|c| {
+                let script = script.clone();
+                s.spawn(move || -> Result<Vec<String>, String> {
+                    let mut child = Command::new("python3")
+                        .arg(&script)
+                        .stdin(Stdio::piped())
+                        .stdout(Stdio::piped())
+                        .stderr(Stdio::inherit())
+                        .spawn()
+                        .map_err(|e| format!("cannot start python3: {}", e))?;
+                    let mut stdin = child.stdin.take().unwrap();
+                    let stdout = child.stdout.take().unwrap();
+                    let payload: String = c.iter().map(|l| format!("{}\n", l)).collect();
+                    let writer = std::thread::spawn(move || {
+                        let _ = stdin.write_all(payload.as_bytes());
+                    });
+                    let mut out = vec![];
+                    for line in BufReader::new(stdout).lines() {
+                        out.push(line.map_err(|e| e.to_string())?);
+                    }
+                    let _ = writer.join();
+                    let _ = child.wait();
+                    if out.len() != c.len() {
+                        return Err(format!("oracle answered {} of {} requests", out.len(), c.len()));
+                    }
+                    Ok(out)
+                })
+            })
+            .collect();
+        handles.into_iter().map(|h| h.join().unwrap_or_else(|_| Err("oracle thread panicked".into()))).collect()
+    });
+    let mut all = vec![];
+    for r in results {
+        all.extend(r?);
+    }
+    Ok(all)
+}
